@@ -22,26 +22,25 @@
 import ZodbModel.Basic
 namespace ZodbModel.Undo
 
-abbrev Oid := Nat
-abbrev Tid := Nat
-abbrev Pos := Nat
+/- oids, tids and positions are plain `Nat`s (`omega` does not look through type abbreviations);
+   variable names `oid`, `tid`/`utid`/`b`/`s`, `pos`/`p` tell them apart -/
 
 /-- what follows the 42-byte data header: a pickle (`plen > 0`) or an 8-byte back pointer
     (`plen = 0`; pointer 0 = the object is un-created) -/
 inductive Payload where
   | data (d : Bytes)
-  | back (p : Pos)
+  | back (p : Nat)
 deriving DecidableEq, Repr
 
 structure Rec where
-  oid : Oid
-  tid : Tid
-  prev : Pos
+  oid : Nat
+  tid : Nat
+  prev : Nat
   pl : Payload
 deriving DecidableEq, Repr
 
 structure Txn where
-  tid : Tid
+  tid : Nat
   packed : Bool          -- status 'p' (else ' ')
   recs : List Rec        -- newest first
 deriving DecidableEq, Repr
@@ -56,18 +55,18 @@ def flat : Log → List Rec
 /-! ### positions, the index, pointer chasing -/
 
 /-- the index: position of the newest record of `oid` (0 = not in the index) -/
-def lastPos (oid : Oid) : List Rec → Pos
+def lastPos (oid : Nat) : List Rec → Nat
   | [] => 0
   | r :: older => if r.oid = oid then older.length + 1 else lastPos oid older
 
 /-- `_read_data_header(pos)` -/
-def recAt : List Rec → Pos → Option Rec
+def recAt : List Rec → Nat → Option Rec
   | [], _ => none
   | r :: older, p => if p = older.length + 1 then some r else recAt older p
 
 /-- `_loadBack_impl(oid, back)[:2]`: follow back pointers down to a record that holds data;
     `none` = KeyError (pointer 0 reached: the object does not exist there) -/
-def loadBack : List Rec → Pos → Option (Bytes × Tid)
+def loadBack : List Rec → Nat → Option (Bytes × Nat)
   | [], _ => none
   | r :: older, p =>
     if p = older.length + 1 then
@@ -82,26 +81,28 @@ def recData (older : List Rec) (r : Rec) : Option Bytes :=
   | .data d => some d
   | .back b => (loadBack older b).map (·.1)
 
+/-- `load`'s body for the record at `p`: its pickle, or the data its back pointer leads to, with the
+    record's own tid; `none` = POSKeyError (no record / un-created) -/
+def loadAt : List Rec → Nat → Option (Bytes × Nat)
+  | [], _ => none
+  | r :: older, p =>
+    if p = older.length + 1 then (recData older r).map fun d => (d, r.tid)
+    else loadAt older p
+
 /-- `load(oid)`: data and serial of the current revision; `none` = POSKeyError -/
-def load (F : List Rec) (oid : Oid) : Option (Bytes × Tid) :=
-  match recAt F (lastPos oid F) with
-  | none => none
-  | some r =>
-    match r.pl with
-    | .data d => some (d, r.tid)
-    | .back b => (loadBack F b).map fun x => (x.1, r.tid)
+def load (F : List Rec) (oid : Nat) : Option (Bytes × Nat) := loadAt F (lastPos oid F)
 
 /-- the state (pickle) `load` answers, `none` when the object does not exist -/
-def dataOf (F : List Rec) (oid : Oid) : Option Bytes := (load F oid).map (·.1)
+def dataOf (F : List Rec) (oid : Nat) : Option Bytes := (load F oid).map (·.1)
 
 inductive LB where
   | keyError                                   -- POSKeyError
   | noRev                                      -- `return None`
-  | found (d : Bytes) (tid : Tid) (endTid : Option Tid)
+  | found (d : Bytes) (tid : Nat) (endTid : Option Nat)
 deriving DecidableEq, Repr
 
 /-- the loop of `loadBefore`: follow `prev` from `p` until a record with `tid < b` -/
-def chaseBefore (b : Tid) : List Rec → Pos → Option Tid → LB
+def chaseBefore (b : Nat) : List Rec → Nat → Option Nat → LB
   | [], _, _ => .noRev
   | r :: older, p, e =>
     if p = older.length + 1 then
@@ -115,7 +116,7 @@ def chaseBefore (b : Tid) : List Rec → Pos → Option Tid → LB
       else chaseBefore b older r.prev (some r.tid)
     else chaseBefore b older p e
 
-def loadBefore (F : List Rec) (oid : Oid) (b : Tid) : LB :=
+def loadBefore (F : List Rec) (oid : Nat) (b : Nat) : LB :=
   if lastPos oid F = 0 then .keyError else chaseBefore b F (lastPos oid F) none
 
 /-- forget the `end_tid` component (which legitimately changes when a newer revision appears) -/
@@ -124,7 +125,7 @@ def LB.rev : LB → LB
   | x => x
 
 /-- the loop of `loadSerial`: follow `prev` from `p` until `tid = s`; `none` = POSKeyError -/
-def chaseSerial (s : Tid) : List Rec → Pos → Option Bytes
+def chaseSerial (s : Nat) : List Rec → Nat → Option Bytes
   | [], _ => none
   | r :: older, p =>
     if p = older.length + 1 then
@@ -133,11 +134,11 @@ def chaseSerial (s : Tid) : List Rec → Pos → Option Bytes
       else chaseSerial s older r.prev
     else chaseSerial s older p
 
-def loadSerial (F : List Rec) (oid : Oid) (s : Tid) : Option Bytes :=
+def loadSerial (F : List Rec) (oid : Nat) (s : Nat) : Option Bytes :=
   chaseSerial s F (lastPos oid F)
 
 /-- the iterator's `data_txn` of a record: tid of the record the back pointer designates (one hop) -/
-def dataTxn (older : List Rec) (r : Rec) : Option Tid :=
+def dataTxn (older : List Rec) (r : Rec) : Option Nat :=
   match r.pl with
   | .data _ => none
   | .back b => if b = 0 then none else (recAt older b).map (·.tid)
@@ -145,17 +146,17 @@ def dataTxn (older : List Rec) (r : Rec) : Option Tid :=
 /-! ### undo -/
 
 /-- `resolve oid old committed new` -/
-abbrev Resolver := Oid → Bytes → Bytes → Bytes → Option Bytes
+abbrev Resolver := Nat → Bytes → Bytes → Bytes → Option Bytes
 
 inductive UErr where
   | invalidTid                      -- UndoError("Invalid transaction id")
   | nonUndoable                     -- UndoError('non-undoable transaction')  (status 'p')
-  | failures (oids : List Oid)      -- MultipleUndoErrors
+  | failures (oids : List Nat)      -- MultipleUndoErrors
 deriving DecidableEq, Repr
 
 /-- `_undoDataInfo(oid, ipos, tpos)`: (tid, data pointer, data-or-empty) of the record at `tipos`
     of the view (staged records first, then the file) -/
-def undoDataInfo (V : List Rec) (tipos : Pos) : Option (Tid × Pos × Option Bytes) :=
+def undoDataInfo (V : List Rec) (tipos : Nat) : Option (Nat × Nat × Option Bytes) :=
   match recAt V tipos with
   | none => none
   | some c =>
@@ -164,14 +165,14 @@ def undoDataInfo (V : List Rec) (tipos : Pos) : Option (Tid × Pos × Option Byt
     | .back b => some (c.tid, b, none)
 
 /-- `tpos or ipos`: position of the current record of `oid`, staged (`_tindex`) before committed (`_index`) -/
-def tipos (S F : List Rec) (oid : Oid) : Pos :=
+def tipos (S F : List Rec) (oid : Nat) : Nat :=
   let tpos := if lastPos oid S = 0 then 0 else lastPos oid S + F.length
   let ipos := lastPos oid F
   if tpos ≠ 0 then tpos else ipos
 
 /-- first half of `_transactionalUndoRecord`: can the record at `pos` be undone by copying a pointer?
     `none` = UndoError, `some none` = copy, `some (some cur)` = no copy, `cur` is the current data -/
-def undoCheck (S F : List Rec) (r : Rec) (pos : Pos) : Option (Option Bytes) :=
+def undoCheck (S F : List Rec) (r : Rec) (pos : Nat) : Option (Option Bytes) :=
   if tipos S F r.oid = pos then some none
   else
     match undoDataInfo (S ++ F) (tipos S F r.oid) with
@@ -193,7 +194,7 @@ def undoCheck (S F : List Rec) (r : Rec) (pos : Pos) : Option (Option Bytes) :=
 
 /-- `_transactionalUndoRecord(oid, pos, tid, pre)` for the committed record `r` at `pos`:
     the payload of the undo record to write; `none` = UndoError -/
-def undoRecord (resolve : Resolver) (S F : List Rec) (r : Rec) (pos : Pos) : Option Payload :=
+def undoRecord (resolve : Resolver) (S F : List Rec) (r : Rec) (pos : Nat) : Option Payload :=
   match undoCheck S F r pos with
   | none => none
   | some none =>
@@ -218,8 +219,8 @@ def undoRecord (resolve : Resolver) (S F : List Rec) (r : Rec) (pos : Pos) : Opt
     the temporary file (newest first) and the `failures` map (as its key list).  A later record of the
     same oid clears an earlier failure ("second chance").  `base` = number of records older than the
     undone transaction, so the record in front of `olderRecs` sits at `base + olderRecs.length + 1`. -/
-def undoLoop (resolve : Resolver) (S F : List Rec) (utid : Tid) (base : Nat) :
-    List Rec → List Rec × List Oid
+def undoLoop (resolve : Resolver) (S F : List Rec) (utid : Nat) (base : Nat) :
+    List Rec → List Rec × List Nat
   | [] => ([], [])
   | r :: olderRecs =>
     let res := undoLoop resolve S F utid base olderRecs
@@ -231,14 +232,14 @@ def undoLoop (resolve : Resolver) (S F : List Rec) (utid : Tid) (base : Nat) :
 /-- `_txn_find(tid, stop_at_pack)`: walk back from the end of the file.  (The status test in that loop
     compares an int with a bytes object and never stops the walk; packed transactions are refused by
     `_txn_undo_write`.) -/
-def txnFind (tid : Tid) : Log → Option (Txn × Log)
+def txnFind (tid : Nat) : Log → Option (Txn × Log)
   | [] => none
   | t :: older => if t.tid = tid then some (t, older) else txnFind tid older
 
 /-- one `storage.undo(tid, txn)` call inside the open transaction `utid` whose staged records are `S`:
     new staged records and the oids reported for invalidation (`tindex.keys()`) -/
-def undoCall (resolve : Resolver) (L : Log) (S : List Rec) (utid tid : Tid) :
-    Except UErr (List Rec × List Oid) :=
+def undoCall (resolve : Resolver) (L : Log) (S : List Rec) (utid tid : Nat) :
+    Except UErr (List Rec × List Nat) :=
   match txnFind tid L with
   | none => .error .invalidTid
   | some (t, older) =>
@@ -248,7 +249,7 @@ def undoCall (resolve : Resolver) (L : Log) (S : List Rec) (utid tid : Tid) :
       if res.2 = [] then .ok (res.1 ++ S, res.1.map (·.oid)) else .error (.failures res.2)
 
 /-- `TransactionalUndo.commit`: `for tid in tids: storage.undo(tid, txn)`; the first error propagates -/
-def undoAll (resolve : Resolver) (L : Log) (utid : Tid) : List Tid → List Rec → Except UErr (List Rec)
+def undoAll (resolve : Resolver) (L : Log) (utid : Nat) : List Nat → List Rec → Except UErr (List Rec)
   | [], S => .ok S
   | tid :: rest, S =>
     match undoCall resolve L S utid tid with
@@ -257,21 +258,21 @@ def undoAll (resolve : Resolver) (L : Log) (utid : Tid) : List Tid → List Rec 
 
 /-- a whole undo transaction: tpc_begin(utid); undo each id; on error tpc_abort (nothing reaches the
     file), else tpc_vote + tpc_finish append the staged records as one ordinary transaction -/
-def undoTxn (resolve : Resolver) (L : Log) (utid : Tid) (ids : List Tid) : Log × Option UErr :=
+def undoTxn (resolve : Resolver) (L : Log) (utid : Nat) (ids : List Nat) : Log × Option UErr :=
   match undoAll resolve L utid ids [] with
   | .error e => (L, some e)
   | .ok S => ({ tid := utid, packed := false, recs := S } :: L, none)
 
 /-- an ordinary commit: `store(oid, serial-of-current, data)` for each pair, then vote + finish;
     `stores` newest first -/
-def commitTxn (L : Log) (tid : Tid) (stores : List (Oid × Bytes)) : Log :=
+def commitTxn (L : Log) (tid : Nat) (stores : List (Nat × Bytes)) : Log :=
   { tid := tid, packed := false,
     recs := stores.map fun s => { oid := s.1, tid := tid, prev := lastPos s.1 (flat L), pl := .data s.2 } } :: L
 
 /-! ### step-level storage state (what the driver executes) -/
 
 structure Staging where
-  tid : Tid
+  tid : Nat
   recs : List Rec := []      -- `_tfile` (newest first); `_tindex` = `lastPos · recs`
   failed : Bool := false     -- an `undo` call raised: the caller must abort
 deriving Repr
@@ -281,16 +282,16 @@ structure FS where
   txn : Option Staging := none
 deriving Repr
 
-def FS.tpcBegin (fs : FS) (tid : Tid) : FS := { fs with txn := some { tid := tid } }
+def FS.tpcBegin (fs : FS) (tid : Nat) : FS := { fs with txn := some { tid := tid } }
 
-def FS.store (fs : FS) (oid : Oid) (d : Bytes) : FS :=
+def FS.store (fs : FS) (oid : Nat) (d : Bytes) : FS :=
   match fs.txn with
   | none => fs
   | some st =>
     { fs with txn := some { st with recs :=
         { oid := oid, tid := st.tid, prev := lastPos oid (flat fs.log), pl := .data d } :: st.recs } }
 
-def FS.undo (resolve : Resolver) (fs : FS) (tid : Tid) : FS × Except UErr (List Oid) :=
+def FS.undo (resolve : Resolver) (fs : FS) (tid : Nat) : FS × Except UErr (List Nat) :=
   match fs.txn with
   | none => (fs, .error .invalidTid)
   | some st =>
@@ -317,7 +318,7 @@ def PayloadOK (n : Nat) : Payload → Prop
 /-- record `r` of transaction `tid`, `older` = all records of older transactions: the record carries
     the transaction's tid, `prev` is the index entry at the time of writing, a pickle is never empty and
     a back pointer designates a record of an older transaction (or is 0) -/
-def RecOK (tid : Tid) (older : List Rec) (r : Rec) : Prop :=
+def RecOK (tid : Nat) (older : List Rec) (r : Rec) : Prop :=
   r.tid = tid ∧ r.prev = lastPos r.oid older ∧ PayloadOK older.length r.pl
 
 def Inv : Log → Prop
@@ -328,7 +329,7 @@ def payloadOKb (n : Nat) : Payload → Bool
   | .data d => !d.isEmpty
   | .back b => decide (b ≤ n)
 
-def recOKb (tid : Tid) (older : List Rec) (r : Rec) : Bool :=
+def recOKb (tid : Nat) (older : List Rec) (r : Rec) : Bool :=
   decide (r.tid = tid) && decide (r.prev = lastPos r.oid older) && payloadOKb older.length r.pl
 
 /-- executable form of `Inv` (used by the driver on files read back from the real storage) -/
@@ -338,6 +339,6 @@ def invB : Log → Bool
     t.recs.all (recOKb t.tid (flat older)) && older.all (fun t' => decide (t'.tid < t.tid)) && invB older
 
 /-- oids written by a transaction -/
-def Txn.oids (t : Txn) : List Oid := t.recs.map (·.oid)
+def Txn.oids (t : Txn) : List Nat := t.recs.map (·.oid)
 
 end ZodbModel.Undo
